@@ -137,6 +137,48 @@ class Prover:
         return self.add(Obligation(full, function, backend, UNDECIDED, time.time() - t0,
                                    "z3 returned unknown within %ds" % self.timeout, text=text))
 
+    def all_paths(self, name, function, items, cls=None):
+        """One obligation for a family of per-path goals: items = [(hyps, goal)].  Discharged iff every
+        path is; refuted by the first path with a model."""
+        full = self._name(name)
+        t0 = time.time()
+        backend = "z3-%s QF_NRA" % backends.Z3_VERSION
+        text = "for each of %d paths: path condition ==> goal; e.g. %s" % (
+            len(items), (tm.show(items[0][1])[:600] if items else ""))
+        unknown = 0
+        for k, (hyps, goal) in enumerate(items):
+            if goal is TRUE:
+                continue
+            hyps = [h for h in hyps if h is not TRUE]
+            v, model, dt, smt2 = backends.z3_check(hyps, goal, timeout_s=self.timeout)
+            if k == 0:
+                self._write(full, smt2, ".smt2")
+            if v == "refuted":
+                syms = {}
+                for h in hyps + [goal]:
+                    symbols(h, syms)
+                if not backends.int_model_ok(model, syms):
+                    v2, model2, _, _ = backends.z3_check(hyps, goal, timeout_s=self.timeout, int_as_real=False)
+                    if v2 == "valid":
+                        continue
+                    if v2 != "refuted":
+                        unknown += 1
+                        continue
+                    model = model2
+                self._write(full, smt2, ".smt2")
+                return self.add(Obligation(full, function, backend, REFUTED, time.time() - t0,
+                                           "path %d of %d: sat: %s" % (k, len(items), ", ".join("%s=%s" % kv for kv in sorted(model.items()))[:500]),
+                                           cex={"model": model, "class": cls or {}, "path": [tm.show(h)[:120] for h in hyps][:12]}, text=text))
+            if v == "unknown":
+                unknown += 1
+        if unknown:
+            return self.add(Obligation(full, function, backend, UNDECIDED, time.time() - t0,
+                                       "%d of %d paths undecided (z3 unknown)" % (unknown, len(items)), text=text))
+        if not items:
+            return self.add(Obligation(full, function, backend, UNDECIDED, 0.0, "no paths", text=text))
+        return self.add(Obligation(full, function, backend, DISCHARGED, time.time() - t0,
+                                   "unsat on all %d paths" % len(items), text=text))
+
     def feasible(self, name, function, hyps):
         """Vacuity guard: the hypotheses of an obligation family must be satisfiable."""
         full = self._name(name)
